@@ -1,0 +1,107 @@
+//go:build verif
+// +build verif
+
+package leveldb
+
+import (
+	"bytes"
+	"errors"
+
+	"github.com/syndtr/goleveldb/leveldb/comparer"
+	lerrors "github.com/syndtr/goleveldb/leveldb/errors"
+	"github.com/syndtr/goleveldb/leveldb/memdb"
+)
+
+// Verification exports for the batch codec and the memdb-insertion half of the write path (property C01,
+// build tag verif only; add-only: nothing in batch.go / db_write.go is changed).  Each function calls the
+// unexported function of the same name and returns what it returned.
+
+// VerifBatchIndexEntry is one batchIndex.
+type VerifBatchIndexEntry struct {
+	KeyType                            uint
+	KeyPos, KeyLen, ValuePos, ValueLen int
+}
+
+// VerifBatchIndex returns a copy of b.index.
+func VerifBatchIndex(b *Batch) []VerifBatchIndexEntry {
+	r := make([]VerifBatchIndexEntry, len(b.index))
+	for i, x := range b.index {
+		r[i] = VerifBatchIndexEntry{uint(x.keyType), x.keyPos, x.keyLen, x.valuePos, x.valueLen}
+	}
+	return r
+}
+
+// VerifBatchInternalLen returns b.internalLen.
+func VerifBatchInternalLen(b *Batch) int { return b.internalLen }
+
+// VerifBatchAppend is b.append(p).
+func VerifBatchAppend(b, p *Batch) { b.append(p) }
+
+// VerifBatchAppendRec is b.appendRec(kt, key, value) (writeLocked uses it for merged Put/Delete calls).
+func VerifBatchAppendRec(b *Batch, kt uint, key, value []byte) { b.appendRec(keyType(kt), key, value) }
+
+var errVerifTooMany = errors.New("verif: more records than bytes")
+
+// VerifDecodeBatch runs decodeBatch(data, fn) with a callback that records every index and stops the loop
+// at its max-th call (looped = true): a loop that does not advance can be observed without hanging the caller.
+func VerifDecodeBatch(data []byte, max int) (idx []VerifBatchIndexEntry, err error, looped bool) {
+	err = decodeBatch(data, func(i int, x batchIndex) error {
+		idx = append(idx, VerifBatchIndexEntry{uint(x.keyType), x.keyPos, x.keyLen, x.valuePos, x.valueLen})
+		if len(idx) >= max {
+			return errVerifTooMany
+		}
+		return nil
+	})
+	if err == errVerifTooMany {
+		return idx, nil, true
+	}
+	return idx, err, false
+}
+
+// VerifEncodeBatchHeader is encodeBatchHeader(nil, seq, batchLen).
+func VerifEncodeBatchHeader(seq uint64, batchLen int) []byte {
+	return append([]byte(nil), encodeBatchHeader(nil, seq, batchLen)...)
+}
+
+// VerifDecodeBatchHeader is decodeBatchHeader(data).
+func VerifDecodeBatchHeader(data []byte) (seq uint64, batchLen int, err error) {
+	return decodeBatchHeader(data)
+}
+
+// VerifBatchHeaderLen is the constant batchHeaderLen.
+const VerifBatchHeaderLen = batchHeaderLen
+
+// VerifBatchesLen is batchesLen(batches).
+func VerifBatchesLen(batches []*Batch) int { return batchesLen(batches) }
+
+// VerifWriteBatchesWithHeader is writeBatchesWithHeader into a buffer: the bytes writeJournal hands to the
+// journal writer as one record.
+func VerifWriteBatchesWithHeader(batches []*Batch, seq uint64) ([]byte, error) {
+	var buf bytes.Buffer
+	err := writeBatchesWithHeader(&buf, batches, seq)
+	return buf.Bytes(), err
+}
+
+// VerifNewIMemDB is memdb.New(&iComparer{ucmp}, capacity): a write buffer as the DB creates it.
+func VerifNewIMemDB(ucmp comparer.Comparer, capacity int) *memdb.DB {
+	return memdb.New(&iComparer{ucmp}, capacity)
+}
+
+// VerifBatchPutMem is b.putMem(seq, mdb).
+func VerifBatchPutMem(b *Batch, seq uint64, mdb *memdb.DB) error { return b.putMem(seq, mdb) }
+
+// VerifDecodeBatchToMem is decodeBatchToMem(data, expectSeq, mdb).
+func VerifDecodeBatchToMem(data []byte, expectSeq uint64, mdb *memdb.DB) (seq uint64, batchLen int, err error) {
+	return decodeBatchToMem(data, expectSeq, mdb)
+}
+
+// VerifBatchCorruptedReason returns the Reason of an ErrBatchCorrupted wrapped in errors.ErrCorrupted ("" and
+// false for any other error).
+func VerifBatchCorruptedReason(err error) (string, bool) {
+	if ec, ok := err.(*lerrors.ErrCorrupted); ok {
+		if bc, ok := ec.Err.(*ErrBatchCorrupted); ok {
+			return bc.Reason, true
+		}
+	}
+	return "", false
+}
